@@ -1315,3 +1315,246 @@ Proof.
   apply items_small. rewrite <- Eq.
   apply (auto_reply_size r part cfg x0 ops w0 rs x w Hn Hl H3 Hr).
 Qed.
+
+(* ------------------------------------------------------------------------------------------ *)
+(** * 9. the decoder accepts nothing else: spec_decode r bs = Some its <-> wf_wire r bs its *)
+
+Lemma nibble_kind_inv (n : N) (kd : wkind) : nibble_kind n = Some kd -> n = kind_nibble kd.
+Proof.
+  unfold nibble_kind. intros H.
+  destruct (n =? 1) eqn:E1; [inv H; cbn; lia|].
+  destruct (n =? 2) eqn:E2; [inv H; cbn; lia|].
+  destruct (n =? 8) eqn:E3; [inv H; cbn; lia|].
+  destruct (n =? 9) eqn:E4; [inv H; cbn; lia|].
+  destruct (n =? 10) eqn:E5; [inv H; cbn; lia|]. discriminate H.
+Qed.
+
+Lemma take_exact_inv (n : nat) (bs a b : bytes) :
+  take_exact n bs = Some (a, b) -> bs = a ++ b /\ length a = n.
+Proof.
+  unfold take_exact. destruct (length bs <? n)%nat eqn:E; [discriminate|].
+  intros H. inv H. split; [symmetry; apply firstn_skipn|].
+  apply firstn_length_le. apply Nat.ltb_ge in E. exact E.
+Qed.
+
+Lemma forallb_all_u8 (l : bytes) : forallb (fun b => b <? 256) l = true -> all_u8 l.
+Proof.
+  intros H. unfold all_u8. apply Forall_forall. intros b Hb.
+  rewrite forallb_forall in H. specialize (H b Hb). lia.
+Qed.
+
+Lemma be_value_bound (l : bytes) : all_u8 l -> be_value l < 256 ^ blen l.
+Proof. intros H. rewrite be_value_from_be. apply from_be_bound. exact H. Qed.
+
+Lemma dec_len_inv (len7 : N) (rest : bytes) (n : N) (rest1 : bytes) :
+  dec_len len7 rest = Some (n, rest1) -> exists ext, rest = ext ++ rest1 /\ len_field n len7 ext.
+Proof.
+  unfold dec_len. intros H.
+  destruct (127 <? len7) eqn:E0; [discriminate H|].
+  destruct (take_exact (if len7 =? 126 then 2%nat else if len7 =? 127 then 8%nat else 0%nat) rest)
+    as [[ext r1]|] eqn:ET; [|discriminate H].
+  apply take_exact_inv in ET. destruct ET as [-> Hl].
+  destruct (forallb (fun b => b <? 256) ext) eqn:EU; [|discriminate H]. cbn [negb] in H.
+  apply forallb_all_u8 in EU. pose proof (be_value_bound ext EU) as Hb.
+  exists ext.
+  destruct (len7 =? 126) eqn:E1.
+  - assert (len7 = 126) by lia. subst len7. change (126 <? 126) with false in H. cbv iota in H.
+    cbn [andb] in H. destruct (be_value ext <? 126) eqn:E2; [discriminate H|].
+    change (126 =? 127) with false in H. cbn [andb] in H. inv H. split; [reflexivity|].
+    right; left. replace (blen ext) with 2 in Hb by (unfold blen; lia).
+    change (256 ^ 2) with 65536 in Hb. repeat split; try assumption; lia.
+  - cbn [andb] in H. destruct (len7 =? 127) eqn:E2.
+    + assert (len7 = 127) by lia. subst len7. change (127 <? 126) with false in H. cbv iota in H.
+      cbn [andb] in H. destruct (be_value ext <? 65536) eqn:E3; [discriminate H|]. inv H.
+      split; [reflexivity|]. right; right.
+      replace (blen ext) with 8 in Hb by (unfold blen; lia).
+      change (256 ^ 8) with 18446744073709551616 in Hb. repeat split; try assumption; lia.
+    + cbn [andb] in H. destruct (len7 <? 126) eqn:E3; [|lia]. inv H.
+      destruct ext; [|discriminate Hl]. split; [reflexivity|]. left. repeat split; lia.
+Qed.
+
+Lemma masked_by_unmask (k : key) (pay : bytes) : masked_by k (unmask_at k 0 pay) pay.
+Proof.
+  split; [symmetry; apply unmask_at_length|].
+  intros i Hi. rewrite unmask_at_length in Hi. rewrite unmask_at_nth by exact Hi. cbn [Nat.add].
+  symmetry. apply lxor_cancel.
+Qed.
+
+Lemma blen_of_length {A} (l : list A) (n : N) : length l = N.to_nat n -> blen l = n.
+Proof. unfold blen. lia. Qed.
+
+Lemma dec_body_inv (masked : bool) (kd : wkind) (n : N) (rest1 : bytes) (it : witem) (rest3 : bytes) :
+  dec_body masked kd n rest1 = Some (it, rest3) ->
+  exists keyb pay, rest1 = keyb ++ pay ++ rest3 /\ it_kind it = kd /\ blen (it_plain it) = n /\
+    match it_key it with
+    | Some k => masked = true /\ keyb = key4 k /\ masked_by k (it_plain it) pay
+    | None => masked = false /\ keyb = [] /\ pay = it_plain it
+    end.
+Proof.
+  unfold dec_body. intros H. destruct masked.
+  - destruct rest1 as [|a [|b [|c [|d rest2]]]]; try discriminate H.
+    destruct (take_exact (N.to_nat n) rest2) as [[pay r3]|] eqn:ET; [|discriminate H].
+    apply take_exact_inv in ET. destruct ET as [-> Hl]. inv H.
+    exists [a; b; c; d], pay. cbn [it_kind it_key it_plain].
+    split; [reflexivity|]. split; [reflexivity|].
+    split; [apply blen_of_length; rewrite unmask_at_length; exact Hl|].
+    split; [reflexivity|]. split; [reflexivity|]. apply masked_by_unmask.
+  - destruct (take_exact (N.to_nat n) rest1) as [[pay r3]|] eqn:ET; [|discriminate H].
+    apply take_exact_inv in ET. destruct ET as [-> Hl]. inv H.
+    exists [], pay. cbn [it_kind it_key it_plain app].
+    split; [reflexivity|]. split; [reflexivity|].
+    split; [apply blen_of_length; exact Hl|]. repeat split.
+Qed.
+
+Lemma spec_decode1_inv (r : role) (bs : bytes) (it : witem) (rest : bytes) :
+  spec_decode1 r bs = Some (it, rest) -> exists fb, bs = fb ++ rest /\ spec_frame r it fb.
+Proof.
+  unfold spec_decode1. intros H.
+  destruct bs as [|b0 [|b1 rest0]]; try discriminate H.
+  destruct (b0 <? 128) eqn:E0; [discriminate H|].
+  destruct (nibble_kind (b0 - 128)) as [kd|] eqn:EK; [|discriminate H].
+  apply nibble_kind_inv in EK.
+  set (masked := match r with Client => true | Server => false end) in *.
+  destruct (Bool.eqb (128 <=? b1) masked) eqn:EM; [|discriminate H]. cbn [negb] in H.
+  apply Bool.eqb_prop in EM.
+  destruct (dec_len (if masked then b1 - 128 else b1) rest0) as [[n rest1]|] eqn:EL; [|discriminate H].
+  apply dec_len_inv in EL. destruct EL as [ext [-> Hlen]].
+  apply dec_body_inv in H. destruct H as [keyb [pay [-> [Hkd [Hn Hk]]]]].
+  exists (b0 :: b1 :: ext ++ keyb ++ pay). split; [cbn [app]; rewrite <- !app_assoc; reflexivity|].
+  unfold spec_frame. exists (if masked then b1 - 128 else b1), ext, keyb, pay.
+  rewrite Hkd, Hn. split; [|split; [exact Hlen|]].
+  - cbn [app]. f_equal; [lia|]. f_equal.
+    destruct (it_key it) as [k|]; cbn [mask_bit].
+    + destruct Hk as [Hm _]. rewrite Hm in *. lia.
+    + destruct Hk as [Hm _]. rewrite Hm in *. lia.
+  - destruct (it_key it) as [k|].
+    + destruct Hk as [Hm Hk]. split; [|exact Hk]. subst masked. destruct r; [discriminate Hm|reflexivity].
+    + destruct Hk as [Hm Hk]. split; [|exact Hk]. subst masked. destruct r; [reflexivity|discriminate Hm].
+Qed.
+
+Lemma spec_decode_fuel_inv (r : role) (fuel : nat) : forall bs its,
+  spec_decode_fuel fuel r bs = Some its -> wf_wire r bs its.
+Proof.
+  induction fuel as [|fuel IH]; intros bs its H.
+  - destruct bs; [|discriminate H]. inv H. constructor.
+  - destruct bs as [|b l]; [inv H; constructor|].
+    cbn [spec_decode_fuel] in H.
+    destruct (spec_decode1 r (b :: l)) as [[it rest]|] eqn:E1; [|discriminate H].
+    destruct (spec_decode_fuel fuel r rest) as [its'|] eqn:E2; [|discriminate H]. inv H.
+    apply spec_decode1_inv in E1. destruct E1 as [fb [-> Hf]].
+    constructor; [exact Hf|apply IH; exact E2].
+Qed.
+
+Theorem spec_decode_iff (r : role) (bs : bytes) (its : list witem) :
+  spec_decode r bs = Some its <-> wf_wire r bs its.
+Proof. split; [apply spec_decode_fuel_inv|apply wf_wire_decode]. Qed.
+
+(* ------------------------------------------------------------------------------------------ *)
+(** * 10. keys: an oracle that never repeats gives frames that never share a key *)
+
+Lemma draws_exhausted_gen ks0 d ks : draws ks0 d ks -> ks0 = [] -> ks = [].
+Proof.
+  induction 1 as [ks| k ks d ks' _ IH | d ks' _ IH]; intros E;
+    [exact E|discriminate E|apply IH; reflexivity].
+Qed.
+
+Lemma draws_exhausted d ks : draws [] d ks -> ks = [].
+Proof. intros H. exact (draws_exhausted_gen _ _ _ H eq_refl). Qed.
+
+(* as long as the oracle is not exhausted, the keys drawn are exactly its first keys *)
+Lemma draws_prefix ks0 d ks : draws ks0 d ks -> ks <> [] -> ks0 = d ++ ks.
+Proof.
+  induction 1 as [ks| k ks d ks' _ IH | d ks' H _]; intros Hne.
+  - reflexivity.
+  - cbn [app]. f_equal. apply IH. exact Hne.
+  - apply draws_exhausted in H. contradiction.
+Qed.
+
+Lemma subseq_in {A} (a b : list A) (x : A) : subseq a b -> In x a -> In x b.
+Proof.
+  induction 1 as [|y a b _ IH|y a b _ IH]; intros Hi; [exact Hi| |right; apply IH; exact Hi].
+  destruct Hi as [->|Hi]; [left; reflexivity|right; apply IH; exact Hi].
+Qed.
+
+Lemma subseq_nodup {A} (a b : list A) : subseq a b -> NoDup b -> NoDup a.
+Proof.
+  induction 1 as [|y a b Hs IH|y a b Hs IH]; intros Hn; [constructor| |].
+  - inversion Hn as [|y' b' Hy Hb]; subst. constructor; [|apply IH; exact Hb].
+    intros Hi. apply Hy. eapply subseq_in; eassumption.
+  - inversion Hn; subst. apply IH. assumption.
+Qed.
+
+Lemma nodup_app_l {A} (a b : list A) : NoDup (a ++ b) -> NoDup a.
+Proof.
+  induction a as [|x a IH]; intros H; [constructor|].
+  cbn [app] in H. inversion H as [|x' l Hx Hl]; subst. constructor; [|apply IH; exact Hl].
+  intros Hi. apply Hx. apply in_or_app. left. exact Hi.
+Qed.
+
+Theorem wire_keys_distinct r part cfg x0 ops w0 rs x w :
+  ctx_new r part cfg = Some x0 -> w_log w0 = [] ->
+  Forall op_no_raw ops -> Forall op_len_u64 ops ->
+  run_ops x0 ops w0 = (rs, x, w) ->
+  NoDup (w_keys w0) -> w_keys w <> [] ->
+  exists its : list witem,
+    queued (w_log w) = map item_frame its /\
+    wf_wire r (wire (w_log w) ++ c_out (x_codec x)) its /\
+    NoDup (item_keys its) /\
+    exists d, w_keys w0 = d ++ w_keys w /\ subseq (item_keys its) d.
+Proof.
+  intros Hn Hl H1 H2 Hr Hnd Hne.
+  destruct (wire_wellformed r part cfg x0 ops w0 rs x w Hn Hl H1 H2 Hr)
+    as [its [Eq [Hwf [d [Hd [Hs _]]]]]].
+  exists its. split; [exact Eq|]. split; [exact Hwf|].
+  pose proof (draws_prefix _ _ _ Hd Hne) as Ep.
+  split; [|exists d; split; assumption].
+  apply (subseq_nodup _ d Hs). rewrite Ep in Hnd. apply nodup_app_l in Hnd. exact Hnd.
+Qed.
+
+(* ------------------------------------------------------------------------------------------ *)
+(** * 11. the right opcode: the item a user message becomes *)
+
+Definition msg_kind (m : message) : wkind :=
+  match m with
+  | MText _ => KText | MBinary _ => KBinary | MPing _ => KPing | MPong _ => KPong
+  | MClose _ => KClose | MFrame _ => KBinary
+  end.
+
+(* the payload: the data; for a Close the 2-byte big-endian code followed by the reason *)
+Definition msg_body (m : message) : bytes :=
+  match m with
+  | MText d | MBinary d | MPing d | MPong d => d
+  | MClose (Some (code, reason)) => [close_to_u16 code / 256 mod 256; close_to_u16 code mod 256] ++ reason
+  | MClose None => []
+  | MFrame f => f_payload f
+  end.
+
+(* the key the next buffer_frame call of an endpoint in role r will use *)
+Definition next_mask (r : role) (w : world) : option key :=
+  match r with Server => None | Client => Some (fst (w_next_key w)) end.
+
+Lemma msg_frame_item (m : message) :
+  op_no_raw (OpWrite m) -> msg_frame m = item_frame (mkItem (msg_kind m) None (msg_body m)).
+Proof.
+  destruct m; cbn [op_no_raw]; intros H; try contradiction; reflexivity.
+Qed.
+
+Lemma sent_item_frame r w kd p :
+  sent_frame r w (item_frame (mkItem kd None p)) = item_frame (mkItem kd (next_mask r w) p).
+Proof. destruct r; reflexivity. Qed.
+
+(* a data message (Text, Binary, Ping) that write accepts is queued as one frame of its own kind,
+   with its own payload, masked with the next key iff client (at most one parked reply follows) *)
+Theorem write_queues_item x m w u x' w' :
+  op_no_raw (OpWrite m) -> data_frame m <> None ->
+  write x m w = (ROk u, x', w') ->
+  exists auto, queued (w_log w') =
+    queued (w_log w) ++ item_frame (mkItem (msg_kind m) (next_mask (x_role x) w) (msg_body m)) :: auto.
+Proof.
+  intros Hr Hd H.
+  destruct (data_frame m) as [f|] eqn:Ed; [|contradiction].
+  pose proof (c10_accept_queued _ _ _ _ _ _ _ Ed H) as A. cbv zeta in A.
+  destruct A as [auto [Eq _]]. exists auto. rewrite Eq. f_equal. f_equal.
+  assert (Ef : f = msg_frame m) by (destruct m; inv Ed; reflexivity).
+  rewrite Ef, (msg_frame_item m Hr). apply sent_item_frame.
+Qed.
